@@ -18,6 +18,7 @@ import (
 	_ "verifharness/fam/ranges"
 	_ "verifharness/fam/registry"
 	_ "verifharness/fam/schema"
+	_ "verifharness/fam/session"
 	_ "verifharness/fam/text"
 	_ "verifharness/fam/types"
 )
